@@ -284,12 +284,34 @@ func runC11Sched(sc c11sScenario, ch sched.Chooser, c *ev.Case, logf func(string
 		sent[i] = append(sent[i], m)
 		_, _ = r.Write([]byte(m))
 	}
-	time.Sleep(2 * time.Millisecond)
+	// wait until every final datagram has been read somewhere (loopback does not lose it;
+	// how long the read loop takes to get to it depends on the load of the machine)
+	finalSeen := func() bool {
+		n := 0
+		for i := range remotes {
+			want := fmt.Sprintf("r%d-final", i)
+			for _, ms := range received {
+				for _, m := range ms {
+					if m == want {
+						n++
+					}
+				}
+			}
+		}
+		return n >= len(remotes)
+	}
+	for limit := time.Now().Add(5 * time.Second); ; {
+		drain()
+		readAll()
+		if finalSeen() || time.Now().After(limit) {
+			break
+		}
+	}
 	drain()
+	readAll()
 	if !unique("after one more datagram per remote") {
 		return msg
 	}
-	readAll()
 	cmu.Lock()
 	defer cmu.Unlock()
 	for i := range remotes {
